@@ -219,21 +219,23 @@ Section Conv.
     assert (R : rust_name conv cc scope x = rust_name conv cc scope y).
     { eapply display_inj_on; [exact E| | |exact Em]; cbn; tauto. }
     unfold rust_name in R. rewrite Tx, Ty in R.
-    assert (K0x : key conv cc x = display (if cc then conv (s_kind x) (s_orig x) else s_orig x))
-      by (unfold key, name0; now rewrite Tx).
-    assert (K0y : key conv cc y = display (if cc then conv (s_kind y) (s_orig y) else s_orig y))
-      by (unfold key, name0; now rewrite Ty).
+    assert (KE : name0 conv cc x = name0 conv cc y -> key conv cc x = key conv cc y).
+    { intros H. unfold key. now rewrite H, Kd. }
+    assert (N0x : name0 conv cc x = if cc then conv (s_kind x) (s_orig x) else s_orig x)
+      by (unfold name0; now rewrite Tx).
+    assert (N0y : name0 conv cc y = if cc then conv (s_kind y) (s_orig y) else s_orig y)
+      by (unfold name0; now rewrite Ty).
     destruct cc; cbn [negb orb] in R; [|now apply No].
     destruct (collides conv true scope x) eqn:Cx; destruct (collides conv true scope y) eqn:Cy.
     - now apply No.
     - (* x fell back to its original spelling, which is y's converted name *)
       assert (key conv true x = key conv true y).
-      { rewrite K0x, K0y, R, Kd. now rewrite conv_idem. }
+      { apply KE. rewrite N0x, N0y, R, Kd. now rewrite conv_idem. }
       pose proof (two_same_key_collide true scope y x Hy Hx (not_eq_sym Nxy) (eq_sym H)). congruence.
     - assert (key conv true x = key conv true y).
-      { rewrite K0x, K0y, <- R, <- Kd. now rewrite conv_idem. }
+      { apply KE. rewrite N0x, N0y, <- R, <- Kd. now rewrite conv_idem. }
       pose proof (two_same_key_collide true scope x y Hx Hy Nxy H). congruence.
-    - assert (key conv true x = key conv true y) by (rewrite K0x, K0y; now rewrite R).
+    - assert (key conv true x = key conv true y) by (apply KE; rewrite N0x, N0y; now rewrite R).
       pose proof (two_same_key_collide true scope x y Hx Hy Nxy H). congruence.
   Qed.
 
@@ -280,7 +282,7 @@ Proof.
   - intros x [H|[H|[]]]; subst; split; reflexivity.
   - assert (E : map (emitted conv cc self_scope) self_scope = ["self_"; "self_"]).
     { destruct cc.
-      - unfold emitted, rust_name, collides, key, name0, self_scope. cbn [map s_tag s_kind s_orig negb orb].
+      - unfold emitted, rust_name, collides, key, name0, self_scope. cbn [map s_tag s_kind s_orig negb orb is_item_kind].
         rewrite C1. destruct C2 as [C2|C2]; rewrite C2; reflexivity.
       - reflexivity. }
     rewrite E. intros N. inversion N as [|? ? H _]; subst. apply H. now left.
